@@ -182,8 +182,9 @@ class Report(object):
             with open(os.path.join(EVID, self.prop + ".json"), "w") as f:
                 json.dump(ev, f, indent=1, sort_keys=True)
         if self.extra.get("operational_model_drift_cases"):
-            print("NOTE: model drift - in %d cases an update() of the real dense-time online monitor did not return exactly the batch that "
-                  "DenseOn!UpdateC computes (diagnostic: the verdicts are taken from the contract clauses only)" % self.extra["operational_model_drift_cases"])
+            print("NOTE: model drift - in %d cases a call of the real library (dense-time update() / evaluate(), explain()) did not return exactly "
+                  "what the operational model (DenseOn!UpdateC, DenseOff!OffC, Explain!Explanation) computes (diagnostic: the verdicts are "
+                  "taken from the contract clauses only)" % self.extra["operational_model_drift_cases"])
         for i, f_ in sorted(self.open_ids.items()):
             if self.prop in f_["properties"]:
                 print("KNOWN-FINDING: property=%s %s %s (%d cases excused this run)" % (self.prop, i, f_["what"], self.known.get(i, 0)))
